@@ -2,6 +2,7 @@
 package twig
 
 import (
+	"bytes"
 	"errors"
 	"fmt"
 	"io"
@@ -736,6 +737,35 @@ func (ctx *RenderContext) callMinFunction(args []interface{}) (interface{}, erro
 
 // EvaluateExpression evaluates an expression node
 func (ctx *RenderContext) EvaluateExpression(node Node) (interface{}, error) {
+	value, err := ctx.evaluateExpressionLazy(node)
+	if err != nil {
+		return value, err
+	}
+	return ctx.materialize(value)
+}
+
+// materialize turns the deferred output of a macro call or of parent() into the
+// text it stands for. Only a print tag whose whole expression is such a call
+// streams it (evaluateExpressionLazy); everywhere else - as the subject or an
+// argument of a filter, an operand, a value that is assigned or passed on - the
+// expression means that text.
+func (ctx *RenderContext) materialize(value interface{}) (interface{}, error) {
+	switch f := value.(type) {
+	case func(io.Writer) error:
+		var buf bytes.Buffer
+		if err := f(&buf); err != nil {
+			return nil, err
+		}
+		return buf.String(), nil
+	case func(*RenderContext) (interface{}, error):
+		return f(ctx)
+	}
+	return value, nil
+}
+
+// evaluateExpressionLazy evaluates an expression; a macro call or parent() at
+// its top is returned as a function that writes the output when called
+func (ctx *RenderContext) evaluateExpressionLazy(node Node) (interface{}, error) {
 	if node == nil {
 		return nil, nil
 	}
